@@ -231,7 +231,7 @@ def check_arm(variant, subs, arm, payload, tracing):
     return problems, info
 
 
-def check_loop(rule, label, root=None, want_choice_info=None):
+def check_loop(rule, label, root=None, want_choice_info=None, only=None):
     """C01.R3 style: every arm of one interpreter loop computes its opcode"""
     fn, tracing = loop_fn(label, root)
     m = the_match(fn)
@@ -250,6 +250,8 @@ def check_loop(rule, label, root=None, want_choice_info=None):
             rule.bad("%s|%s" % (label, variant), "unknown RegOp variant", A.where(fn, arm))
             continue
         seen.add(variant)
+        if only is not None and variant not in only:
+            continue
         problems, info = check_arm(variant, subs, arm, payloads[variant], tracing)
         if want_choice_info is not None:
             want_choice_info.append((variant, subs, arm, info, fn))
@@ -259,6 +261,6 @@ def check_loop(rule, label, root=None, want_choice_info=None):
         else:
             rule.ok("%s:%s" % (label, variant), file=VM, fn=A.fn_label(fn), line=arm["ln"])
     for v in payloads:
-        if v not in seen:
+        if v not in seen and (only is None or v in only):
             rule.bad("%s|%s|missing" % (label, v), "%s loop has no arm for RegOp::%s" % (label, v), A.where(fn, m))
     return fn, m
